@@ -247,7 +247,16 @@ fn gen_str_segment() -> (String, Vec<u8>) {
 
 fn gen_qs() -> (String, &'static str, Option<QS>) {
     let a = t::string(b"abcXYZ019-_.~", 0, 8);
-    match t::weighted(&[4, 2, 2, 2, 1]) {
+    match t::weighted(&[4, 2, 2, 2, 1, 1]) {
+        5 => {
+            // a value (or key) whose percent-decoded bytes are not UTF-8: no String is denoted, the item cannot be produced
+            let bad = t::pick(&["%FF", "x%C3%28y", "%E7%8B", "%80abc", "ok%F0%9F%98"]);
+            match t::draw(3) {
+                0 => (format!("a={bad}"), "invalid", None),
+                1 => (format!("n=1&a={a}{bad}"), "invalid", None),
+                _ => (format!("a={bad}&n=7"), "invalid", None),
+            }
+        }
         0 => {
             let n = if t::chance(1, 2) { Some(t::range(0, 1000) as i32 - 500) } else { None };
             let mut parts = vec![format!("a={a}")];
@@ -378,7 +387,18 @@ fn gen_req() -> Req {
         5 => {
             let a = t::string(b"abcXYZ019-_.~", 0, 8);
             let n = t::range(0, 2000) as i32 - 1000;
-            match t::weighted(&[4, 1, 1, 1]) {
+            match t::weighted(&[4, 1, 1, 1, 1]) {
+                4 => {
+                    // not UTF-8 after decoding (escaped or raw): no String is denoted
+                    let mut b = format!("a={a}").into_bytes();
+                    match t::draw(3) {
+                        0 => b.extend_from_slice(b"%FF"),
+                        1 => b.extend_from_slice(b"%C3%28"),
+                        _ => b.push(0xff),
+                    }
+                    b.extend_from_slice(format!("&n={n}").as_bytes());
+                    mk("POST", "/form".into(), Some("application/x-www-form-urlencoded"), Some(b), "invalid", "form", "form-non-utf8-value", None)
+                }
                 0 => mk("POST", "/form".into(), Some("application/x-www-form-urlencoded"), Some(format!("a={a}%21&n={n}").into_bytes()), "valid", "form", "form-body", Some(json!({"f": F { a: format!("{a}!"), n }}))),
                 1 => mk("POST", "/form".into(), Some("application/x-www-form-urlencoded"), Some(format!("a={a}&n=x{n}").into_bytes()), "invalid", "form", "form-bad-int", None),
                 2 => mk("POST", "/form".into(), Some("application/json"), Some(format!("a={a}&n={n}").into_bytes()), "invalid", "form", "content-type-mismatch", None),
